@@ -161,6 +161,15 @@ def cases(tier, rng):
         yield J('ok_tri_contains', *tv, *q)
         if m <= 1000:
             yield J('ok_tri_contains', *tv, rng.randrange(-m, m + 1), rng.randrange(-m, m + 1))
+        # mono font layout with a custom font: cell / spacing near 2^16 and 2^31, long lines, positions at the i32 edge
+        fcw, fsp = rng.choice([0, 6, 10, 65535, 65536, 2 ** 31 - 1, 2 ** 31, 2 ** 32 - 1, eu(rng)]), rng.choice([0, 0, 1, 2, 65536, 2 ** 32 - 1, eu(rng)])
+        fch, fbl = rng.choice([0, 1, 2, 20, 2 ** 31 - 1, 2 ** 31, 2 ** 32 - 1, eu(rng)]), rng.choice([0, 15, 2 ** 31, eu(rng)])
+        nn = rng.choice([0, 1, 2, 3, 100, 65535, 65536, 65537, cu((2 ** 32 - 1) // max(1, min(fcw + fsp, 2 ** 32 - 1))) % 70000])
+        fx = rng.choice([0, 5, -1000, I32 - 1, I32 - 100, -I32, ei(rng)])
+        fy = rng.choice([0, 5, -I32, -I32 + 10, -I32 + 19, I32 - 1, ei(rng)])
+        yield J('ok_measure', fx, fy, rng.randrange(4), nn, rng.randrange(2), fcw, fch, fsp, fbl, rng.choice([0, 17, 2 ** 32 - 1, eu(rng)]), rng.choice([0, 1, 2 ** 31, eu(rng)]))
+        yield J('ok_draw_plain', fx, fy, rng.randrange(4), nn, 0, fcw, fch, fsp, fbl, 0, 1)
+        yield J('ok_measure', ei(rng), ei(rng), rng.randrange(4), rng.randrange(0, 40), rng.randrange(2), rng.choice([4, 6, 10]), rng.choice([6, 10, 20]), rng.choice([0, 1]), 4, 6, 1)
         yield J('ok_line_height', rng.randrange(2), eu(rng), eu(rng))
         p_ = rng.choice([100, 150, 400, 65536, 65537])
         yield J('ok_line_height', 1, p_, cu(near(rng, (2 ** 32 - 1) // p_)))
